@@ -12,12 +12,12 @@ def variants(rng, base, tier, k):
     files = [e for e in final if e[0] == "file"]
     arts = s1eval.artifacts(base)
     dart = [a for a in arts if "d" in a[1]]
-    for v in range(4):
+    for v in range(6):
         c = copy.deepcopy(base)
         c["id"] = "%s-v%d" % (base["id"], v)
         c["group"] = base["id"]
-        c["cache"] = ["rel", "abs", "shm", "rel"][v]
-        c["env"] = [None, dict(DUD_VERIF_SHARED="0", DUD_VERIF_DEDICATED="1"), dict(DUD_VERIF_SHARED="2", DUD_VERIF_DEDICATED="2"), None][v]
+        c["cache"] = ["rel", "abs", "shm", "rel", "rel", "sym"][v]
+        c["env"] = [None, dict(DUD_VERIF_SHARED="0", DUD_VERIF_DEDICATED="1"), dict(DUD_VERIF_SHARED="2", DUD_VERIF_DEDICATED="2"), None, None, None][v]
         if c["env"] is None:
             del c["env"]
         strat = "lc"[v % 2]
@@ -64,6 +64,36 @@ def variants(rng, base, tier, k):
             strat = rng.choice("lc")
             c["ops"] = [("commit", strat, [])] + ops[:half] + [("commit", rng.choice("lc"), [])] + ops[half:] + [("commit", strat, [])]
             c["how"] = "incremental"
+        elif v == 4:
+            # copies that are edited in place: an earlier, shorter version is committed with --copy (the workspace keeps regular
+            # files), grows to its final length through the same inode, and is committed again
+            init, ops = [], []
+            for e in final:
+                if e[0] == "file" and e[2].startswith("g:") and int(e[2].split(":")[2]) >= 2 and rng.random() < 0.5:
+                    sd, n_ = e[2].split(":")[1:]
+                    init.append(("file", e[1], "g:%s:%d" % (sd, int(n_) - rng.choice([1, 1, min(int(n_) - 1, 4096) or 1]))))
+                    ops.append(("append", e[1], e[2]))
+                else:
+                    init.append(e)
+            c["init"] = init
+            c["ops"] = [("commit", "c", [])] + ops + ([("status", [])] if rng.random() < 0.5 else []) + [("commit", rng.choice("lc"), [])]
+            c["how"] = "copy-then-append-in-place" if ops else "scratch"
+        elif v == 5:
+            # the same tree at the same path, but the directory is declared as an INPUT of its stage (no other stage owns it):
+            # the checksum recorded for it is that of the output
+            c["how"] = "scratch"
+            for sp, st in c["stages"]:
+                dd = [(p, fl) for p, fl in st["out"] if fl == "d"]
+                if dd:
+                    p, fl = rng.choice(dd)
+                    st["out"] = [x for x in st["out"] if x[0] != p]
+                    st.setdefault("in", []).append((p, "d"))
+                    if not st["out"]:
+                        c["init"].append(("file", b"dummy_" + sp.replace(b"/", b"_") + b".out", "g:1:1"))
+                        st["out"] = [(b"dummy_" + sp.replace(b"/", b"_") + b".out", "s")]
+                    c["how"] = "declared-as-input"
+                    c["moved_to_input"] = c.get("moved_to_input", []) + [p]
+            c["ops"] = [("commit", strat, [])]
         else:
             # an entry changes type between commits: file -> directory or directory -> file
             inside = [e for e in files if any(e[1].startswith(a[0] + b"/") for a in dart)]
@@ -91,7 +121,7 @@ def variants(rng, base, tier, k):
 
 def make_cases(rng, tier, n):
     cases, stats = [], {}
-    for i in range(n // 4):
+    for i in range(n // 6):
         base = gen.basic_project(rng, "tree-%d" % i, tier, stats=stats, allow_inputs=False)
         base.pop("cwd", None)
         base["init"] = [e for e in base["init"] if not e[1].startswith(b"workdir")]
@@ -134,7 +164,7 @@ def groups(R, dud, drv, rng, tier, runs):
             if r["error"] or not r["steps"] or r["steps"][-1]["rc"] != 0:
                 continue
             last = r["steps"][-1]["snap"]
-            rec = tuple(sorted(s1eval.recorded(last).items()))
+            rec = tuple(sorted((p_, s_) for p_, s_ in s1eval.recorded(last).items() if not p_.startswith(b"dummy_")))
             sums.setdefault(rec, []).append(r["case"]["how"] + "/" + r["case"]["cache"])
             # dedupe: blobs in the cache reachable from the final checksums = distinct file contents
             reach = set()
@@ -145,7 +175,8 @@ def groups(R, dud, drv, rng, tier, runs):
             in_cache = set(n_ for n_, d_, m_ in last["cache"])
             blobs = [d for d in reach if d not in last["manifests"] and d in in_cache]
             ws = s1eval.logical(last)
-            contents = set(x[1] for p, x in ws.items() if x[0] == "f" and any(p == a or p.startswith(a + b"/") for a, fl, sp in s1eval.artifacts(r["case"]) if "s" not in fl))
+            roots = [a for a, fl, sp in s1eval.artifacts(r["case"]) if "s" not in fl] + list(r["case"].get("moved_to_input", []))
+            contents = set(x[1] for p, x in ws.items() if x[0] == "f" and any(p == a or p.startswith(a + b"/") for a in roots))
             if len(set(blobs)) > len(contents):
                 R.violation(dict(kind="property-violated-on-implementation", case=s1eval.case_json(r["case"]),
                                  violations=["%d file objects are reachable for %d distinct file contents" % (len(set(blobs)), len(contents))]))
@@ -165,8 +196,8 @@ def groups(R, dud, drv, rng, tier, runs):
 def main(tier, replay=None):
     return s1eval.generic_main(PROP, tier, replay, make_cases, oracle, finding_of,
                                nontrivial=lambda run: run["case"]["how"] != "scratch",
-                               rule="S1: for each generated tree four histories reaching the same final content (from scratch; other creation order "
-                                    "and cache placement; incremental recommits over older versions; an entry that changed type between commits) under "
+                               rule="S1: for each generated tree six histories reaching the same final content (from scratch; other creation order "
+                                    "and cache placement; incremental recommits over older versions; an entry that changed type between commits; copies committed, extended in place and recommitted; the directory declared as an input instead of an output) under "
                                     "link/copy, three cache placements and worker-pool sizes {default, 0+1, 2+2}; oracle: identical recorded checksums "
                                     "within a group, one file object per distinct content; non-trivial = history is not a plain from-scratch commit",
-                               seed_salt=16, n_quick=120, n_thorough=1600, extra=groups)
+                               seed_salt=16, n_quick=150, n_thorough=1800, extra=groups)
